@@ -154,7 +154,7 @@ def directed_states(fresh, focus):
     names = sorted(k for k, v in fresh.items() if v[0] == "reg" and len(v[1]))
     S.append({"label": "all-tails", "start": "fresh", "ops": [("flip", f, len(fresh[f][1]) - 1) for f in names]})
     S.append({"label": "all-heads", "start": "fresh", "ops": [("flip", f, 0) for f in names]})
-    S.append({"label": "half-missing", "start": "fresh", "ops": [("rm", f) for f in names[::2]]})
+    S.append({"label": "half-missing", "start": "fresh", "ops": [("rm", f) for f in sorted(fresh)[::2]]})       # links too
     S.append({"label": "stale-other-type", "start": "fresh",
               "ops": [("extra", "Gone.c", b"/* stale */\n"), ("extra", "Gone.h", b"/* stale */\n"), ("extra", "README.local", b"keep me\n")]})
     return S
